@@ -206,8 +206,14 @@ pub enum SearchError {
 
 /// returns ((move, score), max_depth, polls consumed, did the limit expire during the call)
 pub fn run_search(board: &Board, tf: &ThreeFold, limit: u64, positional: bool) -> Result<((Option<ChessMove>, Score), u16, u64, bool), SearchError> {
-    let t = CountingTimeout::new(limit);
     let mut e = Engine::default();
+    run_search_on(&mut e, board, tf, limit, positional)
+}
+
+/// the same on a caller-owned engine (an engine object may be reused for many searches, as
+/// the plugin does): whatever an earlier search left in it must not matter
+pub fn run_search_on(e: &mut Engine, board: &Board, tf: &ThreeFold, limit: u64, positional: bool) -> Result<((Option<ChessMove>, Score), u16, u64, bool), SearchError> {
+    let t = CountingTimeout::new(limit);
     e.positional = positional;
     let r = std::panic::catch_unwind(std::panic::AssertUnwindSafe(|| e.search(board, tf, &t)));
     match r {
